@@ -166,19 +166,58 @@ class BuildStatus:
         return " | ".join(parts)
 
 
+def _gen_modules() -> List[str]:
+    d = os.path.join(TOOLS, "translate")
+    return sorted(f[:-3] for f in os.listdir(d) if f.startswith("gen_c") and f.endswith(".py"))
+
+
+def _gen_outputs(mod: str) -> set:
+    """Names of the Gen/<Name>.lean files a translator writes (string literals "<Name>.lean" in its source)."""
+    try:
+        with open(os.path.join(TOOLS, "translate", mod + ".py")) as fp:
+            return set(re.findall(r'"(?:[A-Za-z0-9_/]*/)?([A-Za-z0-9_]+)\.lean"', fp.read()))
+    except OSError:
+        return set()
+
+
+def gen_imports(prop: str) -> set:
+    """Names of the Gen modules in the import closure of Props/Cxx.lean and Drivers/Cxx.lean."""
+    todo = [os.path.join(LEAN_DIR, "PdfVerif", "Props", f"{prop}.lean"),
+            os.path.join(LEAN_DIR, "Drivers", f"{prop}.lean")]
+    seen, gens = set(), set()
+    while todo:
+        path = todo.pop()
+        if path in seen or not os.path.isfile(path):
+            continue
+        seen.add(path)
+        with open(path) as fp:
+            for m in re.finditer(r"^\s*(?:public\s+)?import\s+(PdfVerif\.[A-Za-z0-9_.]+|Drivers\.[A-Za-z0-9_.]+)", fp.read(), re.M):
+                parts = m.group(1).split(".")
+                if parts[:2] == ["PdfVerif", "Gen"] and len(parts) == 3:
+                    gens.add(parts[2])
+                todo.append(os.path.join(LEAN_DIR, *parts) + ".lean")
+    return gens
+
+
 def regenerate(prop: str, st: BuildStatus) -> None:
-    modname = f"translate.gen_{prop.lower()}"
-    try:
-        mod = importlib.import_module(modname)
-    except ModuleNotFoundError as e:
-        if e.name == modname:
-            return  # nothing translated for this property
-        raise
-    try:
-        mod.generate(LEAN_DIR)
-    except Exception as e:  # Untranslatable or source syntax error
-        st.gen_ok = False
-        st.gen_error = f"{type(e).__name__}: {e}"
+    """Run the property's own translator and then every other one: a property's Lean modules may
+    import definitions regenerated by another property's translator (C07/C06/C05 use the lexer
+    tables of C14, C13 the filter constants of C03, ...), and those must follow the current source
+    too.  A translator that fails marks the tie broken when it is the property's own or when one
+    of the files it writes is in the import closure of the property's theorems or driver."""
+    own = f"gen_{prop.lower()}"
+    needed = gen_imports(prop)
+    mods = _gen_modules()
+    for mod in sorted(mods, key=lambda m: (not m.startswith(own), m)):
+        is_own = mod == own or mod.startswith(own + "_")
+        try:
+            m = importlib.import_module(f"translate.{mod}")
+            m.generate(LEAN_DIR)
+        except Exception as e:  # Untranslatable or source syntax error
+            if is_own or (_gen_outputs(mod) & needed):
+                st.gen_ok = False
+                msg = f"{mod}: {type(e).__name__}: {e}"
+                st.gen_error = msg if not st.gen_error else st.gen_error + " | " + msg
 
 
 def build_and_audit(prop: str, thorough: bool = False) -> BuildStatus:
